@@ -6,6 +6,8 @@ package main
 import (
 	"fmt"
 	"math/rand"
+	"net/http"
+	"net/http/httptest"
 	"strings"
 
 	"github.com/labstack/echo/v4"
@@ -17,6 +19,116 @@ type c01Case struct {
 	Pre    bool     `json:"pre,omitempty"`   // a (no-op) Pre middleware is installed: routing happens inside the Pre chain
 	Req    rReq     `json:"req"`
 	Warm   int      `json:"warm,omitempty"` // >0: Routes[:Warm] registered, the request served once, then the rest registered
+	// Fwd: the handler that serves Req forwards internally to this request (Router.Find on its own context, then
+	// c.Handler()(c)); nil: a forward derived from the case (an instance of another route) for a third of the cases
+	Fwd *rReq `json:"fwd,omitempty"`
+	// Ctx: no ServeHTTP — the application uses the router directly on a context it made itself
+	Ctx *c01Ctx `json:"ctx,omitempty"`
+}
+
+// c01Ctx: Echo.NewContext is called when Routes[:At] are registered (so the context may be older than the widest
+// route), then the steps run on it (all routes registered by then), then Router.Find(Req.Method, Req.Path, ctx)
+type c01Ctx struct {
+	At    int       `json:"at"`
+	Steps []c01Step `json:"steps,omitempty"`
+}
+
+type c01Step struct {
+	Op   string   `json:"op"`             // "set" SetParamValues(Vals...), "names" SetParamNames(Vals...), "find" Router.Find(Req), "reset" Context.Reset
+	Vals []string `json:"vals,omitempty"` //
+	Req  *rReq    `json:"req,omitempty"`  //
+}
+
+// c01Direct runs a Ctx case: returns the observation, the wire form of the context operations, and whether the value
+// slice is known to have at least as many slots as the widest route (the documented precondition of Router.Find)
+func c01Direct(c *c01Case, cur *rObs) (ops string, sized bool) {
+	e := echo.New()
+	e.Logger.SetOutput(nopWriter{})
+	at := c.Ctx.At
+	if at < 0 || at > len(c.Routes) {
+		at = len(c.Routes)
+	}
+	parts := []string{"N", wInt(at)}
+	n := 1
+	slots := rMaxParam(c.Routes[:at])
+	rAddRoutes(e, e, c.Routes[:at], 0, cur)
+	req := rNewRequest(c.Req)
+	rec := httptest.NewRecorder()
+	ctx := e.NewContext(req, rec)
+	rAddRoutes(e, e, c.Routes, at, cur)
+	*cur = cur.keep()
+	// what Reset gives for the fields a lookup that matches nothing leaves alone ("handler will be whatever context
+	// is reset to"); the VALUES are not touched
+	blank := func() {
+		ctx.SetHandler(echo.NotFoundHandler)
+		ctx.SetPath("")
+		ctx.SetParamNames()
+	}
+	defer func() {
+		if r := recover(); r != nil {
+			k := cur.keep()
+			*cur = rObs{Kind: 'P', Panic: fmt.Sprint(r)}
+			cur.shared = k.shared
+		}
+		ops = wInt(n) + " " + strings.Join(parts, " ")
+		sized = slots >= rMaxParam(c.Routes)
+	}()
+	for _, st := range c.Ctx.Steps {
+		switch st.Op {
+		case "set":
+			parts = append(parts, "V", wStrs(st.Vals))
+			if len(st.Vals) > slots {
+				slots = len(st.Vals)
+			}
+			ctx.SetParamValues(st.Vals...)
+		case "names":
+			parts = append(parts, "M", wInt(len(st.Vals)))
+			if len(st.Vals) > slots {
+				slots = len(st.Vals)
+			}
+			ctx.SetParamNames(st.Vals...)
+		case "find":
+			if st.Req == nil {
+				continue
+			}
+			parts = append(parts, "F", wStr(st.Req.Method), wStr(st.Req.Path))
+			n++
+			blank()
+			e.Router().Find(st.Req.Method, st.Req.Path, ctx)
+			continue
+		case "reset":
+			parts = append(parts, "R")
+			if m := rMaxParam(c.Routes); m > slots {
+				slots = m
+			}
+			ctx.Reset(req, rec)
+		default:
+			continue
+		}
+		n++
+	}
+	blank()
+	e.Router().Find(c.Req.Method, c.Req.Path, ctx)
+	cur.Path = ctx.Path()
+	err := ctx.Handler()(ctx) // a registered handler records what it sees into cur
+	path := cur.Path
+	if cur.Kind == 'D' || cur.Kind == 'P' {
+		return
+	}
+	switch {
+	case err == echo.ErrNotFound:
+		cur.Kind, cur.Status = 'N', http.StatusNotFound
+	case err == echo.ErrMethodNotAllowed:
+		cur.Kind, cur.Status = 'M', http.StatusMethodNotAllowed
+		cur.Allow = splitAllow(rec.Result().Header.Get(echo.HeaderAllow))
+	case err == nil && rec.Code == http.StatusNoContent && rec.Result().Header.Get(echo.HeaderAllow) != "":
+		cur.Kind, cur.Status = 'M', http.StatusNoContent
+		cur.Allow = splitAllow(rec.Result().Header.Get(echo.HeaderAllow))
+	default:
+		cur.Kind = '?'
+	}
+	cur.Path = path
+	return
 }
 
 // c01Oracle: the pattern and the values the handler saw must rebuild the request path.
@@ -91,6 +203,9 @@ func c01Run(ci any) Result {
 	var cur rObs
 	wf := rWFTable(c.Routes)
 	wfTag := map[bool]string{true: "well-formed-table", false: "table-outside-insert-theorem"}[wf]
+	if c.Ctx != nil {
+		return c01RunDirect(c, wf, wfTag)
+	}
 	e := rEchoWarm(c.Routes, c.Warm, []rReq{c.Req}, &cur)
 	tags := []string{wfTag}
 	if rHasReRegistration(c.Routes) {
@@ -113,7 +228,10 @@ func c01Run(ci any) Result {
 	// a third of the handlers forward internally: they route another path (an instance of another route of the
 	// table) on their own context with Router.Find, as "internal redirect" helpers do
 	var fwd *rReq
-	if (len(c.Req.Path)+len(c.Routes))%3 == 0 {
+	if c.Fwd != nil {
+		f := *c.Fwd
+		fwd = &f
+	} else if (len(c.Req.Path)+len(c.Routes))%3 == 0 {
 		k := (len(c.Req.Path) + 1) % len(c.Routes)
 		if c.Routes[k].Method != routeNotFound {
 			toks, names, _ := rNorm(c.Routes[k].Path)
@@ -140,11 +258,28 @@ func c01Run(ci any) Result {
 					fwd.Method, fwd.Path, main.FwdPath, main.FwdNames, main.FwdValues, plain.PPath, plain.Names, plain.Values)
 			}
 		}
+		if fwd.Keep && plain.Kind == 'N' && plain.Path == "" {
+			// nothing at all matches the forwarded path: Router.Find leaves the context as it was ("handler will be
+			// whatever context is reset to") and this application did not reset anything: no claim
+			fwdOracle = ""
+			tags = append(tags, "forward-matches-nothing-on-a-kept-context")
+		} else if in := main.FwdObs; in != nil && fwdOracle == "" {
+			// the handler the forward found has run: it is held to the property itself (its pattern and the values
+			// it saw rebuild the forwarded path) and to what a plain request for that path gives
+			if s := c01Oracle(c.Routes, *fwd, *in); s != "" && c01KnownF3(c.Routes, *fwd, *in) == "" {
+				fwdOracle = "internal forward to " + fwd.Method + " " + fmt.Sprintf("%q", fwd.Path) + ": " + s
+			} else if in.Kind != plain.Kind || in.Kind == 'D' && in.wire() != plain.wire() || in.Kind == 'M' && strings.Join(in.Allow, ",") != strings.Join(plain.Allow, ",") {
+				fwdOracle = fmt.Sprintf("an internal forward to %s %q ends in %s, a request for that path in %s", fwd.Method, fwd.Path, in.wire(), plain.wire())
+			} else if in.Kind != 'D' && len(main.FwdNames) != 0 {
+				fwdOracle = fmt.Sprintf("an internal forward to %s %q ends in the router's own %c answer, but the context still shows the parameter names %q (values %q) of the earlier match", fwd.Method, fwd.Path, in.Kind, main.FwdNames, main.FwdValues)
+			}
+			tags = append(tags, "forward-outcome-"+string(in.Kind))
+		}
 		cur = main
 		tags = append(tags, "internal-forward")
 	}
 	res := Result{
-		Ops: wJoin(rTableWire(c.Routes), wStr(c.Req.Method), wStr(c.Req.Path), wInt(rMaxParam(c.Routes))),
+		Ops: wJoin(rTableWire(c.Routes), wStr(c.Req.Method), wStr(c.Req.Path), wInt(rMaxParam(c.Routes)), "0"),
 		// "TI1 RS1": the tree the model builds for this table must satisfy the invariant of the refinement
 		// theorem and represent exactly the registered entries (checked by the driver for every table)
 		Obs: cur.wire() + " // " + c01SpecWire(cur) + " // TI1 RS1 " + map[bool]string{true: "WF1", false: "WF0"}[wf],
@@ -202,10 +337,53 @@ func c01Gen(r *rand.Rand, tier string) []any {
 				d := rReq{Method: rGenMethod(r, routes), Path: rGenPath(r, routes) + "/zzzz/yyyy"}
 				c.Dirty = &d
 			}
+			switch r.Intn(8) {
+			case 0, 1:
+				// the handler forwards internally to another generated request: any path (instances with empty
+				// values, one-edit mutants, unmatched ones), any method
+				c.Fwd = &rReq{Method: rGenMethod(r, routes), Path: rGenPath(r, routes), Keep: r.Intn(2) == 0}
+			case 2:
+				c.Req.Parsed = !c.Req.Raw
+			case 3, 4:
+				// the router used directly on a context the application made
+				c.Pre, c.Warm, c.Dirty = false, 0, nil
+				c.Req.Raw = false
+				c.Ctx = c01GenCtx(r, routes)
+			}
 			out = append(out, c)
 		}
 	}
 	return out
+}
+
+// c01GenCtx: when the context is made (mostly after all routes, sometimes earlier: it is then older than later and
+// possibly wider routes) and what happened to it before the probed lookup: values set by the application (fewer,
+// as many, more than any route needs), an earlier lookup that was not followed by Reset, a Reset, names set
+func c01GenCtx(r *rand.Rand, routes []rRoute) *c01Ctx {
+	x := &c01Ctx{At: len(routes)}
+	if r.Intn(3) == 0 {
+		x.At = r.Intn(len(routes) + 1)
+	}
+	vals := func(n int) []string {
+		v := make([]string, n)
+		for i := range v {
+			v[i] = []string{"secret.txt", "old" + wInt(i), "a/b", "", "x"}[r.Intn(5)]
+		}
+		return v
+	}
+	for k := r.Intn(4); k > 0; k-- {
+		switch r.Intn(8) {
+		case 0, 1, 2:
+			x.Steps = append(x.Steps, c01Step{Op: "set", Vals: vals(r.Intn(rMaxParam(routes) + 3))})
+		case 3, 4, 5:
+			x.Steps = append(x.Steps, c01Step{Op: "find", Req: &rReq{Method: rGenMethod(r, routes), Path: rGenPath(r, routes)}})
+		case 6:
+			x.Steps = append(x.Steps, c01Step{Op: "names", Vals: vals(r.Intn(rMaxParam(routes) + 3))})
+		default:
+			x.Steps = append(x.Steps, c01Step{Op: "reset"})
+		}
+	}
+	return x
 }
 
 func c01Shrink(ci any) []any {
@@ -226,11 +404,46 @@ func c01Shrink(ci any) []any {
 		d.Warm = 0
 		out = append(out, &d)
 	}
+	if c.Fwd != nil {
+		for _, p := range rShrinkString(c.Fwd.Path) {
+			d := *c
+			f := *c.Fwd
+			f.Path = p
+			d.Fwd = &f
+			out = append(out, &d)
+		}
+	}
+	if c.Ctx != nil {
+		for i := range c.Ctx.Steps {
+			d := *c
+			x := *c.Ctx
+			x.Steps = append(append([]c01Step(nil), c.Ctx.Steps[:i]...), c.Ctx.Steps[i+1:]...)
+			d.Ctx = &x
+			out = append(out, &d)
+		}
+		for i, st := range c.Ctx.Steps {
+			if len(st.Vals) > 0 {
+				d := *c
+				x := *c.Ctx
+				x.Steps = append([]c01Step(nil), c.Ctx.Steps...)
+				x.Steps[i].Vals = st.Vals[:len(st.Vals)-1]
+				d.Ctx = &x
+				out = append(out, &d)
+			}
+		}
+	}
 	for i, rs := range rShrinkRoutes(c.Routes) {
 		d := *c
 		d.Routes = rs
 		if i < c.Warm {
 			d.Warm--
+		}
+		if c.Ctx != nil {
+			x := *c.Ctx
+			if i < x.At {
+				x.At--
+			}
+			d.Ctx = &x
 		}
 		out = append(out, &d)
 	}
@@ -238,6 +451,51 @@ func c01Shrink(ci any) []any {
 		d := *c
 		d.Req.Path = p
 		out = append(out, &d)
+	}
+	return out
+}
+
+// c01Mutate: neighbours of a failing case for the search of an input on which the property itself fails: the same
+// set-up probed with an instance of every route of the table (non-empty values), and — for the direct use of the
+// router — with the context made at every earlier moment and without the preparatory steps
+func c01Mutate(r *rand.Rand, ci any) []any {
+	c := ci.(*c01Case)
+	var out []any
+	for k, rt := range c.Routes {
+		toks, names, _ := rNorm(rt.Path)
+		vals := make([]string, len(names))
+		for i := range vals {
+			vals[i] = "v" + wInt(i)
+		}
+		pp, ok := rInst(toks, vals)
+		if !ok {
+			continue
+		}
+		m := rt.Method
+		if m == routeNotFound {
+			m = "GET"
+		}
+		d := *c
+		d.Req = rReq{Method: m, Path: pp}
+		out = append(out, &d)
+		if c.Ctx != nil {
+			for at := 0; at <= len(c.Routes); at++ {
+				d2 := d
+				d2.Ctx = &c01Ctx{At: at}
+				out = append(out, &d2)
+			}
+			for i := range c.Ctx.Steps {
+				d2 := d
+				d2.Ctx = &c01Ctx{At: c.Ctx.At, Steps: c.Ctx.Steps[i : i+1]}
+				out = append(out, &d2)
+			}
+		} else {
+			d2 := d
+			d2.Fwd = &rReq{Method: m, Path: pp}
+			d2.Req = c.Req
+			out = append(out, &d2)
+		}
+		_ = k
 	}
 	return out
 }
@@ -253,15 +511,21 @@ func c01Known(ci any, res Result, modelObs string) string {
 	if strings.HasPrefix(res.Obs, "D ") && res.Oracle != "" {
 		var hid int
 		fmt.Sscanf(res.Obs, "D %d", &hid)
-		if hid >= 0 && hid < len(c.Routes) && c.Routes[hid].Method == routeNotFound {
-			toks, names, _ := rNorm(c.Routes[hid].Path)
-			key := rTokKey(toks)
-			for i, r := range c.Routes {
-				if i != hid && r.Method != routeNotFound && r.Method != c.Req.Method {
-					t2, _, _ := rNorm(r.Path)
-					if rTokKey(t2) == key && len(names) > 0 {
-						return "F3"
-					}
+		return c01KnownF3(c.Routes, c.Req, rObs{Kind: 'D', Hid: hid})
+	}
+	return ""
+}
+
+func c01KnownF3(routes []rRoute, q rReq, o rObs) string {
+	hid := o.Hid
+	if o.Kind == 'D' && hid >= 0 && hid < len(routes) && routes[hid].Method == routeNotFound {
+		toks, names, _ := rNorm(routes[hid].Path)
+		key := rTokKey(toks)
+		for i, r := range routes {
+			if i != hid && r.Method != routeNotFound && r.Method != q.Method {
+				t2, _, _ := rNorm(r.Path)
+				if rTokKey(t2) == key && len(names) > 0 {
+					return "F3"
 				}
 			}
 		}
@@ -269,14 +533,52 @@ func c01Known(ci any, res Result, modelObs string) string {
 	return ""
 }
 
+// c01RunDirect: the router used directly on a context of the application's making
+func c01RunDirect(c *c01Case, wf bool, wfTag string) Result {
+	var cur rObs
+	ops, sized := c01Direct(c, &cur)
+	tags := []string{wfTag, "direct-router-use", "outcome-" + string(cur.Kind)}
+	if !sized {
+		tags = append(tags, "context-older-than-widest-route")
+	}
+	for _, st := range c.Ctx.Steps {
+		tags = append(tags, "ctx-step-"+st.Op)
+	}
+	spec := c01SpecWire(cur)
+	res := Result{
+		Ops: wJoin(rTableWire(c.Routes), wStr(c.Req.Method), wStr(c.Req.Path), wInt(rMaxParam(c.Routes)), ops),
+		Obs: cur.wire() + " // " + spec + " // TI1 RS1 " + map[bool]string{true: "WF1", false: "WF0"}[wf],
+	}
+	if !rHasTextAfterStar(c.Routes) {
+		if cur.Kind == 'P' && !sized {
+			// fewer value slots than the widest route has parameters: outside the documented precondition of
+			// Router.Find; whether it indexes out of range is compared with the model only
+		} else {
+			res.Oracle = c01Oracle(c.Routes, c.Req, cur)
+		}
+	} else {
+		tags = append(tags, "text-after-star")
+	}
+	if cur.Kind == 'D' && len(cur.Values) > 0 {
+		tags = append(tags, "with-params")
+		res.Nontrivial = len(c.Routes) > 1
+	}
+	if rColonClash(c.Routes) {
+		tags = append(tags, "colon-clash-table")
+	}
+	res.Tags = tags
+	return res
+}
+
 func init() {
 	register(&Prop{
 		ID:             "C01",
-		Rule:           "random route tables (1-8 routes from a small pattern pool so prefixes are shared: literals, :params, in-segment params, escaped colons, trailing and glued wildcards, trailing slashes; methods GET/POST/PUT/DELETE/OPTIONS/PROPFIND/custom/RouteNotFound) x request paths derived from the patterns (instances with values incl. empty, slashes, colons, percent signs, UTF-8; one-edit mutants; random strings) x methods; a third of the probes run on the recycled context of a longer request; non-trivial = dispatched with at least one parameter value in a table of >= 2 routes; distinct = distinct model op lines",
+		Rule:           "random route tables (1-8 routes from a small pattern pool so prefixes are shared: literals, :params, in-segment params, escaped colons, trailing and glued wildcards, trailing slashes; methods GET/POST/PUT/DELETE/OPTIONS/PROPFIND/custom/RouteNotFound) x request paths derived from the patterns (instances with values incl. empty, slashes, colons, percent signs, UTF-8; one-edit mutants; random strings) x methods; a third of the probes run on the recycled context of a longer request; a quarter of the handlers forward internally (Router.Find on their own context + c.Handler()(c)) to a derived or generated request; a quarter of the cases use the router directly on a context made with Echo.NewContext (possibly before later, wider routes were registered) after SetParamValues / SetParamNames / earlier lookups / Reset; non-trivial = dispatched with at least one parameter value in a table of >= 2 routes; distinct = distinct model op lines",
 		New:            func() any { return &c01Case{} },
 		Gen:            c01Gen,
 		Run:            c01Run,
 		Shrink:         c01Shrink,
+		Mutate:         c01Mutate,
 		Known:          c01Known,
 		Correspondence: "Router.find ∘ Router.build (L3, lean/EchoModel/Router.lean) AND Router.Spec.routeTable (L1, the model of the theorems) vs Echo.Add + Echo.ServeHTTP (Router.insert/Find, context.ParamValues)",
 	})
